@@ -36,7 +36,7 @@ theorem taskExit_inv {wf exc s} (c : Nat) (hI : Inv wf exc s) : Inv wf exc (task
     split
     · rename_i st hpf
       simp only [hst, if_true]
-      refine ⟨fun j => ?_, hI.cur0⟩
+      refine ⟨fun j => ?_, hI.curLe⟩
       by_cases hj : j = c
       · subst hj
         have := hcI.k3 (by simp [hpf])
@@ -57,7 +57,7 @@ theorem taskExit_inv {wf exc s} (c : Nat) (hI : Inv wf exc s) : Inv wf exc (task
           | none => have := hcI.k3' h hran hex hct; simp [hpf] at this
           | some v => have := hcI.k10 (by simp [hct]); simp [hex] at this
       simp only [hfc, Bool.false_eq_true, if_false]
-      refine ⟨fun j => ?_, hI.cur0⟩
+      refine ⟨fun j => ?_, hI.curLe⟩
       by_cases hj : j = c
       · subst hj
         obtain ⟨k0, k1, k2, k3, k3', k4, k5, k6, k8, k8', k9, k9', k10, u, b1, b2, s1, s2⟩ := hcI
@@ -72,7 +72,7 @@ theorem taskExit_inv {wf exc s} (c : Nat) (hI : Inv wf exc s) : Inv wf exc (task
 
 theorem erase_inv {wf s} (hI : Inv wf none s) (n : Notif) :
     Inv wf (some n) { s with pending := s.pending.erase n } := by
-  refine ⟨fun j => ?_, hI.cur0⟩
+  refine ⟨fun j => ?_, hI.curLe⟩
   have h := hI.ci j
   show CI wf (some n) j (s.comp j) (s.done j) (s.pending.erase n)
   refine { h with k5 := ?_, k6 := ?_, k8' := ?_ }
@@ -96,7 +96,7 @@ theorem erase_inv {wf s} (hI : Inv wf none s) (n : Notif) :
 theorem Inv.drop_pm {wf s c} (hI : Inv wf (some (.pm c)) s)
     (hc : (s.comp c).ran = true → (s.comp c).exit.isSome = true → (s.comp c).ctrl = none → False) :
     Inv wf none s := by
-  refine ⟨fun j => ?_, hI.cur0⟩
+  refine ⟨fun j => ?_, hI.curLe⟩
   have h := hI.ci j
   refine { h with k5 := ?_, k6 := ?_ }
   · intro a b d
@@ -115,7 +115,7 @@ theorem Inv.drop_pm {wf s c} (hI : Inv wf (some (.pm c)) s)
 theorem restart_inv {wf exc s c r} (hI : Inv wf exc s) (hex : (s.comp c).exit = some r)
     (hfc : (s.comp c).finishCalled = false) (hr : restartable wf (wf.cdef c) (s.comp c) r = true) :
     Inv wf exc (s.upd c fun x => { x with exit := none, launches := x.launches + 1, restarts := (if r = .submissionFailed then x.restarts else x.restarts + 1), resub := (if r = .submissionFailed then x.resub + 1 else x.resub) }) := by
-  refine ⟨fun j => ?_, hI.cur0⟩
+  refine ⟨fun j => ?_, hI.curLe⟩
   by_cases hj : j = c
   · subst hj
     have hcI := hI.ci j
